@@ -172,6 +172,7 @@ pub fn cf<T: Default>(_: String) -> T { T::default() }
 pub fn ct<T: Default>(_: String) -> Result<T, Cerr> { Ok(T::default()) }
 pub fn fmap<T>(x: T) -> T { x }
 pub fn ffrom(x: String) -> u8 { x.len() as u8 }
+pub fn ffrom_ref(x: &String) -> u8 { x.len() as u8 }
 pub fn ftry(x: String) -> Result<u8, Cerr> { Ok(x.len() as u8) }
 pub fn miss<E: DeserializeError>(_: &str, l: ValuePointerRef) -> E {
     take_cf_content(E::error::<Infallible>(None, ErrorKind::Unexpected { msg: String::new() }, l))
@@ -463,6 +464,8 @@ fn programs(tier: Tier) -> Vec<Program> {
         ] {
             poison_at(o, b, c, "container", "from together with try_from", &p, Some("error = Err2"), tier);
         }
+        poison_at(o, b, c, "container", "from with an error type", &["from(String) = cf -> Cerr"], Some("error = Err2"), tier);
+        poison_at(o, b, c, "container", "try_from without an error type", &["try_from(String) = ct"], Some("error = Err2"), tier);
         for other in ["rename_all = camelCase", "rename_all = lowercase", "deny_unknown_fields", "deny_unknown_fields = unk"] {
             poison_at(o, b, c, "container", &format!("try_from together with `{other}`"), &["try_from(String) = ct -> Cerr", other], Some("error = Err2"), tier);
             poison_at(o, b, c, "container", &format!("try_from together with `{other}`"), &[other, "try_from(String) = ct -> Cerr"], Some("error = Err2"), tier);
@@ -540,6 +543,10 @@ fn programs(tier: Tier) -> Vec<Program> {
             ["from(String)"],
             ["from = ffrom"],
             ["try_from(String) = ftry"],
+            // an error type is part of try_from only
+            ["from(String) = ffrom -> Cerr"],
+            ["from(&String) = ffrom_ref -> Cerr"],
+            ["map = fmap -> Cerr"],
             ["error"],
             ["needs_predicate = true"],
             ["skip default"],
@@ -655,6 +662,9 @@ fn clean_programs() -> Vec<Program> {
     for (b, pos) in [("S1", Pos::Member(0)), ("S2", Pos::Member(0)), ("S3", Pos::Member(0)), ("TE", Pos::Inner(1, 0))] {
         for a in [
             vec!["rename = \"x\""],
+            vec!["rename = r\"x\""],
+            vec!["rename = r#\"x y\"#"],
+            vec!["rename = \"\\u{78}\\x79\\t\""],
             vec!["default"],
             vec!["default = 3"],
             vec!["skip"],
